@@ -203,6 +203,22 @@ MUTANTS = [
             s.emit_byte(upvalue.index as u8);
             s.emit_byte(upvalue.is_local as u8);
         }''')]},
+    # ---- C09 ----------------------------------------------------------------------------------------
+    {'name': 'F1 unload_fiber forgets the raw fiber pointer (visible only in optimised builds)', 'prop': 'C09',
+     'expect': 'yarel::vm::Vm::unload_fiber / write of Vm.fiber',
+     'edits': [(VM, "            self.unsafe_fiber = (*caller).as_ptr();\n", "")]},
+    {'name': 'F1 load_fiber points the raw pointer at the previous fiber', 'prop': 'C09', 'expect': 'yarel::vm::Vm::load_fiber / write of Vm',
+     'edits': [(VM, "        self.unsafe_fiber = (*fiber).as_ptr();\n        let caller = self.fiber.replace(fiber.as_root());",
+                "        let caller = self.fiber.replace(fiber.as_root());\n        if let Some(c) = caller.as_ref() { self.unsafe_fiber = (**c).as_ptr(); }")]},
+    {'name': 'F1 active fiber used between the two writes', 'prop': 'C09', 'expect': 'yarel::vm::Vm::load_fiber / write of Vm',
+     'edits': [(VM, "        self.unsafe_fiber = (*fiber).as_ptr();\n        let caller = self.fiber.replace(fiber.as_root());",
+                "        self.unsafe_fiber = (*fiber).as_ptr();\n        let _n = self.stack_size();\n        let caller = self.fiber.replace(fiber.as_root());")]},
+    {'name': 'F2 call_closure does not save the caller ip', 'prop': 'C09', 'expect': 'F2 / call_closure',
+     'edits': [(VM, "        self.active_fiber_mut().current_frame_mut().unwrap().ip = self.ip;\n        self.active_fiber_mut().push_call_frame(closure);",
+                "        self.active_fiber_mut().push_call_frame(closure);")]},
+    {'name': 'F3 resume without argument leaves the slot untouched', 'prop': 'C09', 'expect': 'F3 / load_fiber',
+     'edits': [(VM, "        } else {\n            self.poke(0, arg.unwrap_or_default());\n        }\n\n        self.load_frame();",
+                "        } else if let Some(arg) = arg {\n            self.poke(0, arg);\n        }\n\n        self.load_frame();")]},
 ]
 
 BENIGN = [
